@@ -161,9 +161,13 @@ def dns_name(rng):
             lens = [63, 63, 63, 61][:1 + rng.below(4)]
         return b''.join(bytes([n]) + bytes(0x61 + rng.below(26) for _ in range(n)) for n in lens) + b'\0'
     labels = []
+    binary = rng.chance(1, 5)      # labels may hold any octet (RFC 1035 / 2181), zero and dots included
     for _ in range(rng.below(4)):
         n = rng.choice([1, 3, 7, 63, rng.below(20) + 1])
-        labels.append(bytes([n]) + bytes(0x61 + rng.below(26) for _ in range(n)))
+        if binary:
+            labels.append(bytes([n]) + bytes(rng.choice([0, 0, 0x2e, 0xff, 0xc0, 1, 0x61, rng.below(256)]) for _ in range(n)))
+        else:
+            labels.append(bytes([n]) + bytes(0x61 + rng.below(26) for _ in range(n)))
     return b''.join(labels) + b'\0'
 
 
